@@ -534,7 +534,10 @@ def _classify_main(res, u, m):
     except Exception:
         base_skipped = set()
     for w in getattr(u, "skipped_rewrites", []):
-        if w.get("rule") in CONTRACT_CARRYING_RULES and (w.get("item"), w.get("rule"), w.get("pattern")) not in base_skipped:
+        # (count `*` = "every occurrence, however many, including none": a family of spellings with one helper per form - a member
+        # without a match is not a lost ingredient; what is left unrewritten is an unsupported std call, i.e. a compile-level "undecided")
+        if w.get("rule") in CONTRACT_CARRYING_RULES and not w.get("anycount") \
+                and (w.get("item"), w.get("rule"), w.get("pattern")) not in base_skipped:
             lost.setdefault(w.get("item"), []).append(w)
     if lost:
         keep = []
